@@ -24,7 +24,8 @@ pub const ASSUMPTIONS: &[&str] = &[
     "the reference is the tree's own library (build_file with the standard include directory), as the property defines the expected images",
     "the independent HEX reader (hexread.rs) decides what a file decodes to",
     "lenient readings where the statement is silent: an empty image may be skipped or written as an empty file; exit status on success is recorded, not demanded; after a failed write a partial file may remain at the faulted path",
-    "file names are valid UTF-8; -o, -e and the source are three different paths",
+    "-o, -e and the source are three different paths; names that are not valid UTF-8 are generated for directories, explicit outputs and the source itself (a raw byte is carried as U+F800+byte in scenario files; traces and snapshots show such names as to_string_lossy does and judging is done on that spelling)",
+    "an output on which nothing failed is untouched or exactly right when another output failed (a tool that stops at the first failed output is accepted); the tool is compared with the library reading the same installed include files",
     "LD_PRELOAD interposition reaches every libc call of the binary's Rust std (verified by the profile trace: source, includes, both outputs and stdout all appear)",
 ];
 
